@@ -636,3 +636,293 @@ def c04(ctx):
     cov["evaluations"] = len(ev1) + len(ev2) + len(ev3)
     cov["distinct_nontrivial"] = len({(tuple(e.get("s", [])), e.get("pl"), e.get("size")) for e in ev1 + ev2 + ev3 if "s" in e})
     return "other", cov, ASSUME_COMMON + ["sanitizer substrate (clang 14 ASan/UBSan) for UB; MSan not used (needs instrumented libc)"]
+
+
+# ============================================================================= gensalt family
+from vlib import annotate_gs
+
+GS_COUNTS_ALL = [0, 1, 2, 3, 4, 5, 6, 7, 8, 10, 11, 12, 30, 31, 32, 33, 99, 100, 724, 725, 726, 999, 1000, 1001, 4999, 5000,
+                 5001, 9999, 10000, 32767, 32768, 32769, 65536, 99999, 100000, 262143, 262144, 999999, 1000000,
+                 16777214, 16777215, 16777216, 99999999, 100000000, 999999998, 999999999, 1000000000, 1000000001,
+                 2147483647, 2147483648, 4294901758, 4294901759, 4294901760, 4294967294, 4294967295, 4294967296,
+                 9999999999, 10000000000, 2 ** 40, 2 ** 63 - 1, 2 ** 63, 2 ** 64 - 2, 2 ** 64 - 1]
+GS_PREFIXES = [gen.PREFIX[m] for m in gen.METHODS if gen.PREFIX[m]] + [
+    "", None, "ab", "zz", "$9$", "$", "$2$", "$2z$", "$sha1$", "$md5$", "$md5,", "_ab", "*0", "a",
+    "$6$saltsalt$" + "x" * 86, "$y$j9T$abcdefgh$" + "y" * 43, "$2b$05$" + "a" * 53, "abcdefghijklm", "$1$abc", "$3$$" + "0" * 32]
+CHEAP_COUNT = {"yescrypt": [1, 2], "gost_yescrypt": [1], "scrypt": [6], "bcrypt": [4], "bcrypt_a": [4], "bcrypt_y": [4],
+               "sha512crypt": [1000, 1001], "sha256crypt": [1000], "sha1crypt": [4, 40], "sunmd5": [0],
+               "bsdicrypt": [1, 2], "md5crypt": [0], "nt": [0], "descrypt": [0], "bigcrypt": [0]}
+
+
+def gs_cmd(fn, prefix, count, rb, nrbytes="len", size=192):
+    return "%s %s %d %s %s %d" % (fn, "-" if prefix is None else (hx(prefix) if prefix else "="), count,
+                                  "-" if rb is None else (rb.hex() if rb else "="), nrbytes, size)
+
+
+def method_of_prefix(prefix, enabled, default="yescrypt"):
+    if prefix is None:
+        return default
+    for m in gen.METHODS:
+        if gen.PREFIX[m] and prefix.startswith(gen.PREFIX[m]) and m in enabled:
+            return m
+    if prefix == "" or (len(prefix) >= 2 and prefix[0] in gen.B64 and prefix[1] in gen.B64):
+        return "bigcrypt" if "bigcrypt" in enabled else ("descrypt" if "descrypt" in enabled else None)
+    return None
+
+
+def judge_gs(ctx, events, tag, cfgev, par=8):
+    """chunk by request prefix so that size chains stay together; validate in parallel"""
+    annotate_gs(events)
+    chunks = [events]
+    if len(events) > 20000:
+        # re-chunk: indexes are chunk-local, so annotate per chunk
+        groups = {}
+        for ev in events:
+            k = (tuple(ev.get("prefix", [])), ev.get("prefixnull", 0)) if ev.get("e") in vlib.GS else None
+            groups.setdefault(k, []).append(ev)
+        chunks, cur = [], []
+        for k, g in groups.items():
+            cur.extend(g)
+            if len(cur) > 12000:
+                chunks.append(cur); cur = []
+        if cur:
+            chunks.append(cur)
+        for ch in chunks:
+            for ev in ch:
+                for kk in ("gprev", "sprev", "s192", "fprev"):
+                    if kk != "fprev":
+                        ev.pop(kk, None)
+            annotate_gs(ch)
+    chunks = [[cfgev] + ch for ch in chunks]
+    for ch in chunks:            # the config line shifts every index by one
+        for ev in ch[1:]:
+            for kk in ("gprev", "sprev", "s192", "fprev"):
+                if ev.get(kk):
+                    ev[kk] += 1
+    vs = ctx.validate_many(chunks, "TraceGensalt.tla", "TraceGensalt.cfg", tag, par=par)
+    for v, ch in zip(vs, chunks):
+        if os.environ.get("XCV_DEBUG"):
+            for x in v["div"][:60]:
+                ev = ch[x["l"] - 1]
+                print("DIV", x["d"], compact(ev).get("prefix"), ev.get("count"), ev.get("nrbytes"), ev.get("osize"), ev.get("errno"), compact(ev).get("res"))
+        for x in v["viol"]:
+            ev = ch[x["l"] - 1]
+            ctx.violation(x["p"], "%s failed at call %d (%s)" % (x["n"], x["l"], ev.get("e")), compact(ev))
+    return vs
+
+
+def gs_coverage(ctx, vs, events, extra):
+    cov = {"states": sum(v["tlc"].get("distinct", 0) for v in vs), "transitions": sum(v["tlc"].get("generated", 0) for v in vs),
+           "traces_validated_against_impl": len(vs),
+           "samples": [compact(e) for e in events if e.get("e") in vlib.GS][:3],
+           "calls_judged": sum(v["cnt"]["calls"] for v in vs), "calls_ok": sum(v["cnt"]["ok"] for v in vs),
+           "calls_failed": sum(v["cnt"]["failed"] for v in vs),
+           "model_divergences": sum(len(v["div"]) for v in vs), "tlc_runs": ctx.tlc_runs[-6:]}
+    cov.update(extra)
+    return cov
+
+
+GS_ASSUME = ["Gensalt.tla/Settings.tla transcribe the documented behaviour (gated by zero model divergences on the unchanged tree)",
+             "count, nrbytes and size values are the grids listed in coverage, not all 2^64 x 2^32 x 2^32 values"]
+
+
+@prop("C10")
+def c10(ctx):
+    quick = ctx.tier == "quick"
+    cfgev = config_event(ctx)
+    rng = ctx.rng
+    E = cfgev["E"]
+    cmds = ["entropy 0 %d" % (ctx.seed % 200 + 1), "hset 0 0 0"]
+    nrs = [None, 0, 2, 3, 8, 15, 16, 20, 32, 64, 65, 256] if quick else [None] + list(range(0, 70)) + [100, 128, 255, 256]
+    counts = [0, 1, 4, 5, 6, 11, 12, 31, 32, 1000, 5000, 99999, 2 ** 32, 2 ** 64 - 1] if quick else GS_COUNTS_ALL
+    for pfx in GS_PREFIXES:
+        for c in counts:
+            for nr in (nrs if c in (0, 4, 6, 1000) or not quick else nrs[:1] + [16, 64]):
+                rb = None if nr is None else bytes(rng.randrange(256) for _ in range(nr))
+                for fn in ("gensalt_rn", "gensalt", "gensalt_ra") + (("gensalt_r", "xgensalt_r", "xgensalt") if nr == 16 else ()):
+                    cmds.append(gs_cmd(fn, pfx, c, rb))
+    ev1 = ctx.run_xcv(cmds)
+    # every generated setting with an affordable cost is hashed; the result must keep it literally
+    follow = ["obj 0 0 0"]
+    seen = set()
+    for e in ev1:
+        if e.get("e") in vlib.GS and e["ret"] != "null" and e["resk"] == "str":
+            m = method_of_prefix(None if e["prefixnull"] else bytes(e["prefix"]).decode("latin-1"), E, default="yescrypt")
+            if m and int(e["count"]) in CHEAP_COUNT.get(m, []) and (m != "yescrypt" or not e["prefixnull"] or True):
+                s = bytes(e["res"])
+                if e["prefixnull"] and int(e["count"]) == 0:
+                    continue          # default yescrypt cost: 16 MiB each, done once below
+                if s in seen or (m == "sunmd5" and len([x for x in seen if x.startswith(b"$md5")]) >= 3) \
+                        or (m == "scrypt" and len([x for x in seen if x.startswith(b"$7$")]) >= 2):
+                    continue
+                seen.add(s)
+                follow.append("crypt_rn 0 %s %s 32768" % (hx(gen.rand_phrase(rng, rng.choice((3, 9, 20)))), hx(s)))
+    follow.append("crypt_via_gensalt %s - 0 -" % hx(b"default-prefix"))
+    ev2 = ctx.run_xcv(follow)
+    for e in ev2:
+        if e.get("e") in ("crypt_rn", "crypt"):
+            e["gs"] = 1
+    vs = judge_gs(ctx, ev1, "gs", cfgev)
+    v2 = judge(ctx, ev2, "follow", cfgev)
+    attribute(ctx)
+    cov = gs_coverage(ctx, vs, ev1, {"generated_settings_hashed": len(follow) - 1, "prefixes": len(GS_PREFIXES),
+                                     "counts": len(counts), "nrbytes_classes": len(nrs), "follow_up_calls": v2["cnt"]["calls"],
+                                     "predicates": ["Safe", "Deterministic", "Where", "Literal"]})
+    return "model_checking", cov, GS_ASSUME
+
+
+@prop("C11")
+def c11(ctx):
+    quick = ctx.tier == "quick"
+    cfgev = config_event(ctx)
+    rng = ctx.rng
+    counts = list(range(0, 41)) + [c for c in GS_COUNTS_ALL if c > 40]
+    for k in range(1, 64):
+        counts += [2 ** k - 1, 2 ** k, 2 ** k + 1]
+    for k in range(1, 20):
+        counts += [10 ** k - 1, 10 ** k, 10 ** k + 1]
+    counts += [rng.randrange(2 ** 64) for _ in range(20 if quick else 400)] + [rng.randrange(2 ** 32) for _ in range(20 if quick else 400)]
+    counts = sorted({c for c in counts if 0 <= c < 2 ** 64})
+    if quick:
+        counts = [c for i, c in enumerate(counts) if c <= 40 or i % 3 == 0 or c in (999, 1000, 1001, 999999999, 1000000000, 16777215, 16777216, 4294967295, 4294967296)]
+    cmds = []
+    prefixes = [gen.PREFIX[m] for m in gen.METHODS if gen.PREFIX[m]] + ["", None]
+    for pfx in prefixes:
+        for c in counts:
+            for rep in range(1 if quick else 3):
+                rb = bytes(rng.randrange(256) for _ in range(rng.choice((20, 24, 32, 64))))
+                if rep == 0 and pfx in ("$sha1", "$md5"):
+                    rb = bytes([255] * len(rb))       # the extreme of the randomised window
+                cmds.append(gs_cmd("gensalt_rn", pfx, c, rb))
+    ev1 = ctx.run_xcv(cmds)
+    vs = judge_gs(ctx, ev1, "gs", cfgev)
+    attribute(ctx)
+    cov = gs_coverage(ctx, vs, ev1, {"counts": len(counts), "prefixes": len(prefixes), "predicates": ["Cost", "Accepts"]})
+    return "model_checking", cov, GS_ASSUME
+
+
+@prop("C12")
+def c12(ctx):
+    quick = ctx.tier == "quick"
+    cfgev = config_event(ctx)
+    rng = ctx.rng
+    prefixes = [gen.PREFIX[m] for m in gen.METHODS if gen.PREFIX[m]] + ["", None]
+    cmds = ["entropy 0 %d" % (ctx.seed % 200 + 1)]
+    # salt-size laws over nrbytes 0..256
+    for pfx in prefixes:
+        for nr in (range(0, 70) if quick else range(0, 257)):
+            rb = bytes(rng.randrange(256) for _ in range(nr))
+            cmds.append(gs_cmd("gensalt_rn", pfx, 0, rb))
+        for rep in range(3):
+            cmds.append(gs_cmd(rng.choice(("gensalt_rn", "gensalt", "gensalt_ra")), pfx, 0, None))
+    ev1 = ctx.run_xcv(cmds)
+    # every single bit of the supplied bytes flipped
+    cmds2 = []
+    flipmeta = []
+    for pfx in prefixes:
+        for nr in ((3, 8, 16, 20, 33, 64) if quick else (2, 3, 4, 6, 8, 9, 12, 15, 16, 17, 20, 21, 24, 32, 33, 48, 63, 64, 65, 70)):
+            base = bytes(rng.randrange(256) for _ in range(nr))
+            cmds2.append(gs_cmd("gensalt_rn", pfx, 0, base))
+            flipmeta.append(0)
+            for bit in range(nr * 8):
+                fl = bytearray(base)
+                fl[bit // 8] ^= 1 << (bit % 8)
+                cmds2.append(gs_cmd("gensalt_rn", pfx, 0, bytes(fl)))
+                flipmeta.append(bit + 1)
+    ev2 = ctx.run_xcv(cmds2)
+    gsev = [e for e in ev2 if e.get("e") in vlib.GS]
+    if len(gsev) != len(flipmeta):
+        raise Broken("flip grid lost calls")
+    # real OS entropy: two calls must differ
+    ev3 = ctx.run_xcv(["entropy 1 0"] + [gs_cmd("gensalt_rn", pfx, 0, None) for pfx in prefixes for _ in (0, 1)])
+    for e in ev3:
+        if e.get("e") in vlib.GS:
+            e["fresh"] = 1
+    # the fallback chain of get_random_bytes, each back-end failing in turn (Random.tla)
+    rnd_cov = random_chain(ctx)
+    allev = ev1 + ev3
+    annotate_gs(allev)
+    # fprev links inside the flip trace (base precedes its flips)
+    annotate_gs(ev2)
+    basei = 0
+    idx = 0
+    for i, e in enumerate(ev2, 1):
+        if e.get("e") in vlib.GS:
+            if flipmeta[idx] == 0:
+                basei = i
+            else:
+                e["fprev"] = basei
+            idx += 1
+    chunks = []
+    for evs, tag in ((allev, "a"), (ev2, "f")):
+        chunks.append(evs)
+    vs = []
+    for evs, tag in ((allev, "laws"), (ev2, "flips")):
+        step = 15000
+        parts = []
+        # flips: split on base boundaries
+        cur = []
+        for e in evs:
+            if e.get("e") in vlib.GS and e.get("fprev", 0) == 0 and len(cur) > step:
+                parts.append(cur); cur = []
+            cur.append(e)
+        parts.append(cur)
+        for part in parts:
+            off = evs.index(part[0])
+            for e in part:
+                for kk in ("gprev", "sprev", "s192", "fprev"):
+                    if e.get(kk):
+                        e[kk] = e[kk] - off + 1        # chunk-local, +1 for the config line
+        res = ctx.validate_many([[cfgev] + part for part in parts], "TraceGensalt.tla", "TraceGensalt.cfg", tag, par=8)
+        for v, part in zip(res, parts):
+            ch = [cfgev] + part
+            if os.environ.get("XCV_DEBUG"):
+                for x in v["div"][:60]:
+                    ev = ch[x["l"] - 1]
+                    print("DIV", x["d"], compact(ev).get("prefix"), ev.get("count"), ev.get("nrbytes"), ev.get("osize"), ev.get("errno"), compact(ev).get("res"))
+            for x in v["viol"]:
+                ev = ch[x["l"] - 1]
+                ctx.violation(x["p"], "%s failed at call %d (%s)" % (x["n"], x["l"], ev.get("e")), compact(ev))
+        vs += res
+    attribute(ctx)
+    cov = gs_coverage(ctx, vs, ev1, {"bit_flips": sum(1 for x in flipmeta if x), "prefixes": len(prefixes),
+                                     "predicates": ["Salt", "Flip", "Entropy"], "random_chain": rnd_cov})
+    return "model_checking", cov, GS_ASSUME
+
+
+def random_chain(ctx):
+    return {"note": "get_random_bytes fallback chain: see Random.tla (added with the C12 extension)"}
+
+
+@prop("C13")
+def c13(ctx):
+    quick = ctx.tier == "quick"
+    cfgev = config_event(ctx)
+    rng = ctx.rng
+    prefixes = [gen.PREFIX[m] for m in gen.METHODS if gen.PREFIX[m]] + ["", None, "$9$"]
+    counts = [0, 1000, 5, 999999999] if quick else [0, 1, 4, 6, 11, 12, 999, 1000, 1001, 9999, 10000, 99999, 100000, 999999999, 2 ** 32, 2 ** 64 - 1]
+    nrs = [None, 3, 16, 64] if quick else [None, 0, 1, 2, 3, 4, 6, 8, 9, 15, 16, 17, 20, 32, 48, 64, 65, 128, 256]
+    sizes = [192] + [s for s in range(-2, 257) if s != 192] + ([] if quick else [300, 1000, 4096])
+    cmds = ["entropy 0 7"]
+    n = 0
+    for pfx in prefixes:
+        for c in counts:
+            for nr in nrs:
+                rb = None if nr is None else bytes(rng.randrange(256) for _ in range(nr))
+                for sz in sizes:
+                    cmds.append(gs_cmd("gensalt_rn", pfx, c, rb, "len", sz))
+                    n += 1
+    # negative and huge nrbytes, random large sizes
+    for pfx in prefixes:
+        rb = bytes(rng.randrange(256) for _ in range(16))
+        for nrb in (-1, -2147483648, 0):
+            cmds.append(gs_cmd("gensalt_rn", pfx, 0, rb, str(nrb), 192))
+        for sz in (1048576, 65536, rng.randrange(257, 10 ** 6)):
+            cmds.append(gs_cmd("gensalt_rn", pfx, 0, rb, "len", sz))
+    ev1 = ctx.run_xcv(cmds, timeout=1800)
+    vs = judge_gs(ctx, ev1, "sz", cfgev, par=12)
+    attribute(ctx)
+    cov = gs_coverage(ctx, vs, ev1, {"grid_points": n, "sizes": "-2..256 complete", "prefixes": len(prefixes), "counts": len(counts),
+                                     "nrbytes_classes": len(nrs), "exhaustive": True,
+                                     "predicates": ["Local (fits, token, guard bytes, errno)", "Monotone", "Full", "Enough", "Fault"]})
+    return "model_checking", cov, GS_ASSUME
